@@ -255,8 +255,18 @@ func (w *world) state() string {
 	if w.kind != "hwmon" {
 		avg = 0
 	}
+	// the raise counter: through the export shim; when the field the shim reads is gone from the tree (the shim is then a
+	// stub that panics) the counter of the statistics stands in
+	off := func() (v int) {
+		defer func() {
+			if recover() != nil {
+				v = st.MinPwmOffset
+			}
+		}()
+		return w.ctl.VerifMinPwmOffset()
+	}()
 	return fmt.Sprintf("pwm=%d mode=%d last=%s off=%d min=%d max=%d avg=%s rint=%d cnt=%d inc=%d",
-		w.dev.Pwm, w.dev.Mode, ls, w.ctl.VerifMinPwmOffset(), w.fan.GetMinPwm(), w.fan.GetMaxPwm(),
+		w.dev.Pwm, w.dev.Mode, ls, off, w.fan.GetMinPwm(), w.fan.GetMaxPwm(),
 		fmtF(avg), rint, st.UnexpectedPwmValueCount, st.IncreasedMinPwmCount)
 }
 
